@@ -2041,6 +2041,17 @@ def compress(condition, a, axis=None):
         axis = 0
     axis = validate_axis(axis, a.ndim)
 
+    # A concrete `condition` longer than the axis is fine for NumPy as long as
+    # its surplus entries are all False (otherwise it is an IndexError)
+    n = a.shape[axis]
+    if isinstance(condition, np.ndarray) and not np.isnan(n) and len(condition) > n:
+        surplus = np.flatnonzero(condition[n:])
+        if len(surplus):
+            raise IndexError(
+                f"index {n + int(surplus[0])} is out of bounds for axis {axis} with size {n}"
+            )
+        condition = condition[:n]
+
     # Treat `condition` as filled with `False` (if it is too short)
     a = a[
         tuple(
